@@ -73,6 +73,12 @@ def t3_clear_value(rate, accel, jerk):
     return 0
 
 
+def _in_i32(value, limit):
+    """Signed 32-bit range [-2^31, 2^31-1] for the default limit (the T3 registers are int32;
+    C02 says so), a symmetric bound for any other limit (C17's wider walk)."""
+    return -limit - 1 <= value <= limit if limit == RATE_MAX else abs(value) <= limit
+
+
 def t3_states(rate, accel, jerk, accum, max_ticks, limit=RATE_MAX):
     """Yield (k, rate_k, accel_k, total_k) while |rate_k| and |accel_k| stay within range."""
     total = t3_clear_value(rate, accel, jerk) if accum == "clear" else accum
@@ -80,7 +86,7 @@ def t3_states(rate, accel, jerk, accum, max_ticks, limit=RATE_MAX):
     accel_k = accel
     for k in range(1, max_ticks + 1):
         rate_k += accel_k
-        if abs(rate_k) > limit or abs(accel_k) > limit:
+        if not _in_i32(rate_k, limit) or not _in_i32(accel_k, limit):
             return
         accel_k += jerk
         total += rate_k
@@ -102,7 +108,7 @@ def t3_rate_closed(rate, accel, jerk, ticks):
 
 def t3_in_domain(rate, accel, jerk, ticks, limit=RATE_MAX):
     """Exact: |rate_k| <= limit for k=1..ticks and |accel at each tick| <= limit."""
-    if abs(accel) > limit or abs(accel + (ticks - 1) * jerk) > limit:
+    if not _in_i32(accel, limit) or not _in_i32(accel + (ticks - 1) * jerk, limit):
         return False
     cands = {1, ticks}
     if jerk != 0:
@@ -111,7 +117,7 @@ def t3_in_domain(rate, accel, jerk, ticks, limit=RATE_MAX):
         for k in (centre - 1, centre, centre + 1, centre + 2):
             if 1 <= k <= ticks:
                 cands.add(k)
-    return all(abs(t3_rate_closed(rate, accel, jerk, k)) <= limit for k in cands)
+    return all(_in_i32(t3_rate_closed(rate, accel, jerk, k), limit) for k in cands)
 
 
 # --------------------------------------------------------------------------------- LM oracle
